@@ -71,6 +71,7 @@ func doProposal014(instructionSet *JumpTable) {
 		dynamicGas:  gasAuth,
 		minStack:    minStack(3, 1),
 		maxStack:    maxStack(3, 1),
+		memorySize:  memoryAuth,
 	}
 
 	instructionSet[AUTHCALL] = &operation{
